@@ -66,6 +66,12 @@ class Type:
                 s += '()'
         return s
 
+    @property
+    def is_unknown(self):
+        # note that UNKNOWN is not equal to anything, not even to
+        # itself, so it cannot be tested with ==
+        return self._type == BuiltinType.UNKNOWN
+
     def can_hold(self, value):
         if self.is_user_defined:
             return False
